@@ -93,6 +93,12 @@ func generate(family string, n int, seed uint64) []Scenario {
 			out = append(out, genF8(i))
 		case "stale":
 			out = append(out, genStale(i))
+		case "errwin":
+			out = append(out, genErrWin(rr, i))
+		case "multifail":
+			out = append(out, genMultiFail(rr, i))
+		case "churn":
+			out = append(out, genChurn(rr, i))
 		case "boot":
 			out = append(out, genBoot(rr, i))
 		default:
